@@ -7,6 +7,8 @@ CONSTANTS
   Dmarcs = {"off"}
   Only1On = TRUE
   WithRemote = TRUE
+  Kinds = {"pipe"}
+  ModOn = FALSE
   Lazy = TRUE
   Devs = {"NABody", "BodyPerScope", "ReplayRejectLeaks"}
   Gen = FALSE
